@@ -9,6 +9,7 @@ from __future__ import annotations
 
 import hashlib
 import math
+import os
 import time
 from fractions import Fraction
 
@@ -173,7 +174,7 @@ class Path:
         if i < len(self.forced):
             fk = self.forced[i]
             if fk[0] != "b" or fk[1] != taken:
-                raise Mismatch(f"decision {i}: witness gives {taken}, prefix wants {fk}")
+                raise Mismatch(f"decision {i}: witness gives {taken}, prefix wants {fk}: {core.show(f, 7)[:600]}")
         self.trace.append(("b", f, taken, len(self.pc)))
         self.pc.append(f if taken else bnot(f))
         self.known[f.uid] = taken
@@ -222,6 +223,8 @@ class Path:
                     best = Fraction(1, 10**6)
             self.assign[key] = best
         val = Fraction(self.assign[key])
+        # sqrt(x) * sqrt(x) -> x is applied at the SymReal level only (the product *is* x, value included), for
+        # every witness alike, so that the sequence of decisions does not depend on how exact the witness is
         self.roots[key] = x
         if val**k != x.v:
             self.exact = False
@@ -231,9 +234,10 @@ class Path:
             for _ in range(k - 1):
                 yk = mk("mul", (yk, y), "R")  # raw node: the sqrt(x)*sqrt(x) -> x rewrite must not apply to the definition
             lhs = yk if x.d is None else mul(yk, x.d)
-            self.defs.append(cmp("le", core.R0, y))
+            nonneg = mk("le", (core.R0, y), "B")  # raw node: cmp() would fold it away (roots are structurally >= 0)
+            self.defs.append(nonneg)
             self.defs.append(cmp("eq", lhs, x.n))
-            self.pc.append(cmp("le", core.R0, y))
+            self.pc.append(nonneg)
             self.pc.append(bnot(core.bxor(cmp("eq", y, core.R0), cmp("eq", x.n, core.R0))))
         return SymReal(y, None, val)
 
@@ -295,6 +299,18 @@ def _nonlinear(n: Node, _memo={}):
                 break
     _memo[n.uid] = res
     return res
+
+
+_VARS_MEMO = {}
+
+
+def _vars_of(n: Node):
+    r = _VARS_MEMO.get(n.uid)
+    if r is None:
+        r = frozenset(core.node_vars(n))
+        if len(_VARS_MEMO) < 2_000_000:
+            _VARS_MEMO[n.uid] = r
+    return r
 
 
 def _model_value(m, zt, sort):
@@ -393,16 +409,10 @@ class Explorer:
                 todo.append(i)
         if not todo:
             return
-        s = z3.Solver()
-        s.set("rlimit", self.rlimit)
-        s.set("timeout", 20000)
-        added = 0
         new = []
         for i in todo:
             kind, f, taken, pclen = p.trace[i]
-            while added < pclen:
-                s.add(to_z3(p.pc[added]))
-                added += 1
+            s = None
             if kind == "b":
                 target = bnot(f) if taken else f
                 fk = ("b", not taken)
@@ -458,24 +468,49 @@ class Explorer:
                 return True
         return False
 
+    def _slice(self, p: Path, pclen, target):
+        """cone of influence: the constraints of the prefix that (transitively) share a variable with the target.
+        The other constraints form independent components which the parent witness already satisfies, so the
+        sliced query is equisatisfiable with the full one and its model extends the parent witness."""
+        vs = set(_vars_of(target))
+        rest = [(c, _vars_of(c)) for c in p.pc[:pclen]]
+        keep = []
+        changed = True
+        while changed and rest:
+            changed = False
+            nxt = []
+            for c, cv in rest:
+                if cv and not vs.isdisjoint(cv):
+                    keep.append(c)
+                    vs |= cv
+                    changed = True
+                else:
+                    nxt.append((c, cv))
+            rest = nxt
+        return keep
+
     def _flip(self, p: Path, s, pclen, target):
         if self._certified_infeasible(p, target):
             return "unsat"
         zt = to_z3(target)
-        s.push()
+        base = self._slice(p, pclen, target)
+        s = z3.Solver()
+        s.set("rlimit", self.rlimit)
+        s.set("timeout", 20000)
+        for c in base:
+            s.add(to_z3(c))
         s.add(zt)
         r = self._check(s)
+        if os.environ.get("VERIF_DEBUG_FLIP"):
+            print("FLIP", core.show(target, 5)[:200], "->", r, "| slice:", [core.show(c, 4)[:80] for c in base][:12])
         if r == z3.sat:
-            w = self._witness(p, s.model())
-            s.pop()
-            return w
-        s.pop()
+            return self._witness(p, s.model())
         if r == z3.unsat:
             return "unsat"
         # unknown: partial concretisation -- free only the variables of the target
         tv = core.node_vars(target)
         allv = {}
-        for c in p.pc[:pclen]:
+        for c in base:
             core.node_vars(c, allv)
         for attempt in range(4):
             free = set(tv)
@@ -492,7 +527,7 @@ class Explorer:
             s2 = z3.Solver()
             s2.set("rlimit", self.rlimit)
             s2.set("timeout", 10000)
-            cs = [to_z3(c) for c in p.pc[:pclen]] + [zt]
+            cs = [to_z3(c) for c in base] + [zt]
             if subs:
                 cs = [z3.substitute(c, *subs) for c in cs]
             s2.add(*cs)
